@@ -22,6 +22,7 @@ import (
 	"os"
 	"path/filepath"
 	"regexp"
+	"sort"
 	"runtime"
 	"strconv"
 	"strings"
@@ -32,6 +33,7 @@ import (
 	"github.com/relex/gotils/logger"
 
 	"verifharness/internal/e2e"
+	"verifharness/internal/upstream"
 	"verifharness/internal/vkit"
 )
 
@@ -40,10 +42,17 @@ type ddCombo struct {
 	Load   string `json:"load"`  // few | many
 	StopMs int    `json:"stop_ms"`
 	Seed   int    `json:"seed"`
+	// Mixed: the agent has two outputs of different types - a fluentdForward output to a healthy fake upstream in front of the
+	// datadog output. Every record is serialized for both, released once, and owed to both.
+	Mixed bool `json:"mixed,omitempty"`
 }
 
 func (cb ddCombo) id() string {
-	return fmt.Sprintf("datadog/%s/%s/stop%d/%d", cb.State, cb.Load, cb.StopMs, cb.Seed)
+	m := ""
+	if cb.Mixed {
+		m = "/mixed-outputs"
+	}
+	return fmt.Sprintf("datadog/%s/%s/stop%d/%d%s", cb.State, cb.Load, cb.StopMs, cb.Seed, m)
 }
 
 func buildDDCombos(c *vkit.Ctx) []ddCombo {
@@ -55,7 +64,7 @@ func buildDDCombos(c *vkit.Ctx) []ddCombo {
 					if c.Quick() && st != "hang" && st != "halfbody" && (len(st)+len(ld)+sp/40+int(c.Seed))%2 != 0 {
 						continue
 					}
-					out = append(out, ddCombo{State: st, Load: ld, StopMs: sp, Seed: s})
+					out = append(out, ddCombo{State: st, Load: ld, StopMs: sp, Seed: s, Mixed: len(out)%2 == 1})
 				}
 			}
 		}
@@ -207,7 +216,30 @@ func (in *ddIntake) close() {
 	_ = in.srv.Close()
 }
 
-func ddConfig(root, addr string) string {
+func ddConfig(root, addr, fwdAddr string) string {
+	fwd := ""
+	if fwdAddr != "" {
+		fwd = fmt.Sprintf(`  - name: fwd0
+    buffer:
+      type: hybridBuffer
+      rootPath: %s
+      maxBufSize: 1GB
+    output:
+      type: fluentdForward
+      serialization:
+        environmentFields: [host, app]
+        hiddenFields: [class]
+        rewriteFields:
+          log:
+            - type: unescape
+      messageMode: PackedForward
+      upstream:
+        address: %s
+        tls: false
+        secret: ""
+        maxDuration: 10m
+`, filepath.Join(filepath.Dir(root), "q0"), fwdAddr)
+	}
 	return fmt.Sprintf(`schema:
   fields: [facility, level, time, host, app, pid, source, extradata, log, class]
   maxFields: 12
@@ -230,7 +262,7 @@ transformations:
   - type: delFields
     keys: [time]
 outputBufferPairs:
-  - name: dd1
+%s  - name: dd1
     buffer:
       type: hybridBuffer
       rootPath: %s
@@ -242,7 +274,7 @@ outputBufferPairs:
       upstream:
         address: http://%s/api/v2/logs
         httpTimeout: %dms
-`, root, addr, ddHTTPTimeout/time.Millisecond)
+`, fwd, root, addr, ddHTTPTimeout/time.Millisecond)
 }
 
 // ddClient writes the records, half-closes and waits for the agent's EOF: "the agent has read every byte of this connection".
@@ -358,7 +390,56 @@ func runDD(c *vkit.Ctx, attempt int) (again bool) {
 	root := filepath.Join(c.WorkDir(), fmt.Sprintf("dd-%d-%d", idx, attempt))
 	_ = os.MkdirAll(root, 0o755)
 	cfg := filepath.Join(root, "config.yml")
-	_ = os.WriteFile(cfg, []byte(ddConfig(filepath.Join(root, "q1"), in.ln.Addr().String())), 0o644)
+	var fwdUp *upstream.Server
+	fwdAddr := ""
+	if cb.Mixed {
+		fwdUp, err = upstream.New("fwd0", &upstream.Clock{}, nil)
+		if err != nil {
+			c.Inconclusive(cb.id() + ": no upstream: " + err.Error())
+			return false
+		}
+		defer fwdUp.Close()
+		fwdAddr = fwdUp.Addr()
+		c.Event("datadog_mixed_output_runs", 1)
+	}
+	_ = os.WriteFile(cfg, []byte(ddConfig(filepath.Join(root, "q1"), in.ln.Addr().String(), fwdAddr)), 0o644)
+	// fwdHave: what the Forward output of a mixed run has acknowledged at its upstream or keeps in its own queue directory
+	fwdHave := func() map[string]bool {
+		have := map[string]bool{}
+		if fwdUp == nil {
+			return have
+		}
+		for _, m := range fwdUp.Snapshot() {
+			if !m.AckSent {
+				continue
+			}
+			for _, e := range m.Entries {
+				if l, ok := e.Record["log"].(string); ok {
+					if st := e2e.StampOf(l); st != "" {
+						have[st] = true
+					}
+				}
+			}
+		}
+		_ = filepath.Walk(filepath.Join(root, "q0"), func(p string, info os.FileInfo, err error) error {
+			if err != nil || info.IsDir() || !strings.HasSuffix(p, ".ff") {
+				return nil
+			}
+			if b, err := os.ReadFile(p); err == nil {
+				if _, _, _, entries, err := e2e.DecodeChunkFile(b); err == nil {
+					for _, e := range entries {
+						if l, ok := e.Record["log"].(string); ok {
+							if st := e2e.StampOf(l); st != "" {
+								have[st] = true
+							}
+						}
+					}
+				}
+			}
+			return nil
+		})
+		return have
+	}
 	nrec, pad := 40+r.Intn(30), 40
 	if cb.Load == "many" {
 		nrec, pad = 400+r.Intn(200), 300
@@ -463,6 +544,29 @@ func runDD(c *vkit.Ctx, attempt int) (again bool) {
 		c.Nontrivial(fmt.Sprintf("datadog/%s/%s/stop%d", cb.State, cb.Load, cb.StopMs))
 	} else if files > 0 {
 		c.Nontrivial(fmt.Sprintf("datadog/%s/%s/stop%d", cb.State, cb.Load, cb.StopMs))
+	}
+	if cb.Mixed {
+		fh := fwdHave()
+		var fmiss []string
+		for s := range expected {
+			if !fh[s] {
+				fmiss = append(fmiss, s)
+			}
+		}
+		c.Event("datadog_mixed_forward_records_checked", len(expected))
+		if len(fmiss) > 0 {
+			if exp := lg.safetyExpired(); len(exp) > 0 && attempt < 3 {
+				c.Sample(map[string]any{"combo": cb, "set_aside": exp})
+				return true
+			}
+			sort.Strings(fmiss)
+			if len(fmiss) > 8 {
+				fmiss = fmiss[:8]
+			}
+			c.Violation("only-in-memory:forward-next-to-datadog/"+cb.State, fmt.Sprintf("%s: after the stop (%d ms) %d of %d records are neither acknowledged by the healthy Forward upstream nor in a chunk file of the Forward output's queue, e.g. %v",
+				cb.id(), ms, len(fmiss), len(expected), fmiss), map[string]any{"combo": cb})
+			return false
+		}
 	}
 	if len(missing) > 0 {
 		if exp := lg.safetyExpired(); len(exp) > 0 && attempt < 3 {
